@@ -171,25 +171,41 @@ def draw_board(draw, st, max_cells, min_side=1, max_side=6):
 
 
 def draw_rooms(draw, st, h, w, p_new=(1, 2, 3)):
-    """random partition into orthogonally connected rooms -> list of rooms (lists of (y,x))"""
-    rid = [[-1] * w for _ in range(h)]
-    n = 0
+    """random partition into orthogonally connected rooms (random spanning tree minus some edges, so
+    every connected partition is reachable) -> (list of rooms as lists of (y, x), id grid).
+    p_new biases the number of rooms: larger values cut more tree edges."""
+    cells = [(y, x) for y in range(h) for x in range(w)]
+    edges = []
+    for (y, x) in cells:
+        if x + 1 < w:
+            edges.append(((y, x), (y, x + 1)))
+        if y + 1 < h:
+            edges.append(((y, x), (y + 1, x)))
+    parent = {c: c for c in cells}
+
+    def find(c):
+        while parent[c] != c:
+            parent[c] = parent[parent[c]]
+            c = parent[c]
+        return c
+
+    tree = []
+    if edges:
+        for i in draw(st.permutations(list(range(len(edges))))):
+            a, b = edges[i]
+            ra, rb = find(a), find(b)
+            if ra != rb:
+                parent[ra] = rb
+                tree.append((a, b))
     pn = draw(st.sampled_from(list(p_new)))
-    for y in range(h):
-        for x in range(w):
-            opts = []
-            if x > 0:
-                opts.append(rid[y][x - 1])
-            if y > 0:
-                opts.append(rid[y - 1][x])
-            c = draw(st.integers(0, pn + len(opts) - 1)) if opts else 0
-            if not opts or c == len(opts):
-                rid[y][x] = n
-                n += 1
-            else:
-                rid[y][x] = opts[min(c, len(opts) - 1)]
-    rooms = [[] for _ in range(n)]
-    for y in range(h):
-        for x in range(w):
-            rooms[rid[y][x]].append((y, x))
-    return rooms, rid
+    hi = min(len(tree), max(1, len(tree) * pn // 4 + 1)) if tree else 0
+    n_cut = draw(st.integers(0, hi)) if tree else 0
+    parent = {c: c for c in cells}
+    for a, b in tree[n_cut:]:
+        parent[find(a)] = find(b)
+    groups = {}
+    for c in cells:
+        groups.setdefault(find(c), []).append(c)
+    ids = {r: i for i, r in enumerate(groups)}
+    rid = [[ids[find((y, x))] for x in range(w)] for y in range(h)]
+    return list(groups.values()), rid
